@@ -460,16 +460,20 @@ def run_cases(cases, workdir, tag, shard=600):
         chunk = terms[sh_i:sh_i + shard]
         f = os.path.join(workdir, "Cases_%s_%d.v" % (tag, sh_i // shard))
         with open(f, "w") as fh:
-            fh.write("From Coq Require Import List String.\nFrom Wire Require Import Sets Model.\nImport ListNotations.\nOpen Scope string_scope.\n")
+            fh.write("From Coq Require Import List String.\nFrom Wire Require Import Sets Model Bridge.\nImport ListNotations.\nOpen Scope string_scope.\n")
             fh.write("Definition cases : list case := [\n" + ";\n".join(chunk) + "\n].\n")
             fh.write("Definition M := Eval vm_compute in mismatches cases.\nPrint M.\n")
+            # certificate: the well-formedness checker the planner theorems assume holds on every accepted map
+            fh.write("Definition W := Eval vm_compute in map k_id (filter (fun k => match run_case k with ROk pm _ => negb (wfb pm (k_args k)) | _ => false end) cases).\nPrint W.\n")
         rc, out, err = coqc(f)
         m = re.search(r"M\s*=\s*(\[.*?\])\s*:\s*list nat", out, re.S)
-        if rc != 0 or not m:
+        w = re.search(r"W\s*=\s*(\[.*?\])\s*:\s*list nat", out, re.S)
+        if rc != 0 or not m or not w:
             raise RuntimeError("coqc failed on %s: rc=%d\n%s\n%s" % (f, rc, out[-2000:], err[-3000:]))
-        body = m.group(1).strip()[1:-1].strip()
-        if body:
-            mism += [int(x) for x in body.split(";")]
+        for mm in (m, w):
+            body = mm.group(1).strip()[1:-1].strip()
+            if body:
+                mism += [int(x) for x in body.split(";") if int(x) not in mism]
     return mism, stats, resps, kinds
 
 
